@@ -283,7 +283,12 @@ class Trace:
                     and call.ctx.body["path"].startswith("block_handler::") and call.args and isinstance(call.args[0], RefV) \
                     and is_state_place(call.args[0].place, "buffer"):
                 # the per-key upload buffer, still in the state, is cut or emptied by the handler itself
-                tr.events.append(("buffer-shrink", call.name, s.copy(), call.site))
+                grows = False
+                if call.name == "resize" and len(call.args) > 1 and isinstance(call.args[1], IntV):
+                    cur_ = I_.read(s, call.args[0].place)
+                    grows = isinstance(cur_, VecV) and s.entails(call.args[1].aff - cur_.len)
+                if not grows:
+                    tr.events.append(("buffer-shrink", call.name, s.copy(), call.site))
             elif p == "error::HandlingError::bad_request":
                 s.ghost[("inj", "bad_request")] = True
                 tr.events.append(("bad_request", s.copy(), call.site))
